@@ -910,7 +910,7 @@ func ruleListShape(c *Ctx) {
 	}
 	judge := func(fn *ssa.Function, inline map[*ssa.Function]bool) *shapeChecker {
 		var sc *shapeChecker
-		for _, unroll := range []int{2, 1} {
+		for _, unroll := range []int{3, 2, 1} {
 			sc = &shapeChecker{c: c, fn: fn, fNext: sc0.fNext, fPrev: sc0.fPrev, fHead: sc0.fHead, fTail: sc0.fTail, fCount: sc0.fCount,
 				problems: map[string]string{}, isNode: map[string]bool{}, unroll: unroll, inline: inline}
 			sc.run()
